@@ -75,6 +75,14 @@ def gen_case(rng, binary):
                                            # cut off in the trailing context of its last hunk (seeded C17-i: the missing lines
                                            # were "tolerated" as empty context)
                                            b"--- a/f\n+++ b/f\n@@ -1,3 +1,3 @@\n a\n-b\n+B\n", b"--- a/f\n+++ b/f\n@@ -1,4 +1,4 @@\n a\n-b\n+B\n c\n"])
+        if rng.random() < 0.3:
+            # the offending line is long and holds characters of several bytes (and bytes that are no UTF-8) at every offset:
+            # a message that quotes it must not be cut inside a character (seeded C17-j / C11-i: String::truncate panics there)
+            junk = b"x" * rng.randint(0, 200) + b"".join(rng.choice([b"\xc3\xa9", b"\xe2\x82\xac", b"\xf0\x9f\x98\x80", b"\xff", b"y"])
+                                                          for _ in range(rng.randint(40, 200)))
+            w["patches"][victim] = rng.choice([b"--- a/f\n+++ b/f\n@@ -1,2 +1 @@\n x\n" + junk + b"\n",
+                                               b"--- a/f\n+++ b/f\n@@ -" + junk + b" +1 @@\n",
+                                               b"--- a/f\n+++ b/f\n@@ -1 +1 @@\n-x\n" + junk + b"\n"])
         orig = ORIG.get(id(w))
         if orig is not None and rng.random() < 0.4:
             # ... or the victim's own text, cut off inside the trailing context of its last hunk
